@@ -5,7 +5,7 @@
    Statement level: (structural) every generator sits on exactly one facet pair and the word on
    that facet is its letter (or the inverse letter); the two sides of a non-mirror facet carry
    mutually inverse words; every returned word is freely reduced; the cone list is exactly the
-   set of words traced around the branched 2-orbits (up to rotation / inversion), each with that
+   set of words traced around the branched 2-orbits (up to conjugation / inversion), each with that
    orbit's branching number.  (group level) the abelian invariants of the returned presentation
    equal those of the textbook presentation (specification's Smith form on both); the number of
    conjugacy classes of subgroups of index 2 (and 3) of the returned presentation — brute-force
@@ -46,9 +46,14 @@ Structural(e) ==
    /\ \A k \in 1..Len(e.cones) : Reduced(e.cones[k].w)
    \* cones = words around the branched orbits with their branching numbers, up to rotation / inversion
    /\ LET branched == {q \in IdxPairs(S) \X Chambers(S) : VV(S, q[1][1], q[1][2], q[2]) > 1}
-          want == {<<RelPerms(OrbitWord(e, S, q[1][1], q[1][2], q[2])), VV(S, q[1][1], q[1][2], q[2])>> : q \in branched}
-          got == {<<RelPerms(e.cones[k].w), e.cones[k].v>> : k \in 1..Len(e.cones)}
-      IN got = want /\ Cardinality(got) = Len(e.cones)
+          \* words traced from different chambers of one orbit are conjugate (not always rotations of each other: the
+          \* trace from a chamber inside a tree branch is not cyclically reduced), so classes are taken up to conjugation
+          want == {<<ConjClass(OrbitWord(e, S, q[1][1], q[1][2], q[2])), VV(S, q[1][1], q[1][2], q[2])>> : q \in branched}
+          got == {<<ConjClass(e.cones[k].w), e.cones[k].v>> : k \in 1..Len(e.cones)}
+          \* two different orbits can carry conjugate words (then the classes coincide while the library lists both words):
+          \* the list has at least one entry per class and at most one per branched orbit
+          orbits == {<<q[1], Orbit(S, {q[1][1], q[1][2]}, q[2])>> : q \in branched}
+      IN got = want /\ Len(e.cones) >= Cardinality(got) /\ Len(e.cones) <= Cardinality(orbits)
 GroupLevel(e) ==
    LET S == e.sym  ng == e.ngens IN
    /\ AbelianInvariants(ExpMatrix(ng, e.relators), ng) = TextbookAbelianInvariants(S)
@@ -60,8 +65,8 @@ GroupLevel(e) ==
          /\ (ng > 0 => T.gens = ng /\ IsPermAction(T) /\ Transitive(T) /\ SatisfiesRelators(T, e.relators)))
 RelatorConf(e) ==
    LET S == e.sym
-       want == {RelPerms(Pow(OrbitWord(e, S, q[1][1], q[1][2], q[2]), VV(S, q[1][1], q[1][2], q[2]))) : q \in IdxPairs(S) \X Chambers(S)} \ {{<<>>}}
-       got == {RelPerms(e.relators[k]) : k \in 1..Len(e.relators)}
+       want == {ConjClass(Pow(OrbitWord(e, S, q[1][1], q[1][2], q[2]), VV(S, q[1][1], q[1][2], q[2]))) : q \in IdxPairs(S) \X Chambers(S)} \ {{<<>>}}
+       got == {ConjClass(e.relators[k]) : k \in 1..Len(e.relators)}
    IN got = want
 Next == /\ l <= Len(Rec)
         /\ ("panic" \notin DOMAIN Rec[l] /\ CompleteSym(Rec[l].sym) /\ Connected(Rec[l].sym)
